@@ -20,9 +20,13 @@ for d in sorted(os.listdir("/tmp/mut/out")):
     slug = "-".join(sorted(set(os.path.splitext(os.path.basename(f))[0] for f in files)))[:40]
     notes = open(os.path.join(out, "notes.md")).read() if os.path.exists(os.path.join(out, "notes.md")) else ""
     needs = ""
-    for para in re.split(r"\n\s*\n", notes):
+    paras = re.split(r"\n\s*\n", notes)
+    for i, para in enumerate(paras):
         if re.search(r"manifest|trigger|needs|only (shows|when|if)|takes to", para, re.I):
-            needs = " ".join(para.split())[:400]
+            body = re.sub(r"^#+[^\n]*\n?", "", para.strip())  # a heading on its own: the text is the next paragraph
+            if not body.strip() and i + 1 < len(paras):
+                body = paras[i + 1]
+            needs = " ".join(body.split())[:400]
             break
     name = "%s-%s-%s" % (prop, suffix, slug)
     cmd = [os.path.join(V, "tools", "seed.py"), name, out, "--prop", prop, "--needs", needs or "see notes.md",
